@@ -34,9 +34,9 @@ def cases(tier, seed):
     n = 200 if tier == "quick" else 60000
     out = []
     for j in range(n):
-        cell = ["ortho", "tri", "rotated", "tri", "tiny_tilt", "ortho", "rotated"][j % 7]
+        cell = ["ortho", "tri", "rotated", "tri", "tiny_tilt", "ortho", "rotated", "rotated_ortho"][j % 8]
         mode = "fract" if (j // 3) % 3 else "cart"
-        if mode == "cart" and cell == "rotated":
+        if mode == "cart" and cell in ("rotated", "rotated_ortho"):
             mode = "fract"
         out.append({"s": int(rng.integers(1 << 30)), "cell": cell, "mode": mode, "where": ["inside", "outside", "boundary", "upper_face"][(j // 9) % 4]})
     # more than 9999 atoms of one element: atom labels get a fifth digit
